@@ -346,9 +346,9 @@ def run(ctx):
     # of C16-R3 for text::newline and text::tabs_or_spaces, and their schedule independence (no reader call
     # other than the look-ahead: a CRLF split between two reads must still be one line end)
     from . import c16
-    r6 = ctx.rule("C07-R6", "line ends are exactly LF | CRLF and blanks exactly space | tab, however the bytes arrive (shared with C16-R1/R3)", floor=20)
+    r6 = ctx.rule("C07-R6", "line ends are exactly LF | CRLF, blanks exactly space | tab, a skipped comment line reaches to its line feed -- however the bytes arrive (shared with C16-R1/R3)", floor=30)
     facts = ctx.facts
-    for h, spec in (("newline", c16.spec_newline), ("tabs_or_spaces", c16.spec_tabs)):
+    for h, spec in (("newline", c16.spec_newline), ("tabs_or_spaces", c16.spec_tabs), ("next_newline", c16.spec_next_newline)):
         fid = c16.T + h
         fn = facts.fn(fid)
         for o in (0, 1):
